@@ -180,6 +180,13 @@ static void vector_case(const std::vector<Op> &ops, pbt::Ctx &ctx)
       size_t sizeBefore = v[a].size();
       switch (((op.k % V_NKINDS) + V_NKINDS) % V_NKINDS) {
       case V_PUSH:
+        if (op.c % 4 == 0 && !m[a].empty()) {
+          // the argument refers to an element of the vector itself (must survive the reallocation it may trigger)
+          size_t j = (size_t)op.b % m[a].size();
+          v[a].push_back(v[a][j]);
+          m[a].push_back(m[a][j]);
+          break;
+        }
         for (int i = 0; i <= (int)(op.b % 5); ++i) {
           v[a].push_back(Mk<T>::make(val + i));
           m[a].push_back(Mk<T>::make(val + i));
@@ -188,6 +195,11 @@ static void vector_case(const std::vector<Op> &ops, pbt::Ctx &ctx)
       case V_RESIZE: {
         static const size_t ns[] = {0, 1, 2, 7, 8, 9, 33, 100, 257};
         size_t n = ns[op.b % 9];
+        if (op.c % 4 == 0 && !m[a].empty()) {
+          v[a].resize(n, v[a][m[a].size() - 1]);
+          m[a].resize(n, m[a][m[a].size() - 1]);
+          break;
+        }
         v[a].resize(n, Mk<T>::make(val));
         m[a].resize(n, Mk<T>::make(val));
         break;
@@ -205,6 +217,12 @@ static void vector_case(const std::vector<Op> &ops, pbt::Ctx &ctx)
         break;
       case V_INSERT: {
         size_t pos = m[a].empty() ? 0 : (size_t)op.b % (m[a].size() + 1);
+        if (op.c % 4 == 0 && !m[a].empty()) {
+          size_t j = (size_t)(op.b / 3) % m[a].size();
+          v[a].insert(v[a].begin() + (long)pos, v[a][j]);
+          m[a].insert(m[a].begin() + (long)pos, m[a][j]);
+          break;
+        }
         v[a].insert(v[a].begin() + (long)pos, Mk<T>::make(val));
         m[a].insert(m[a].begin() + (long)pos, Mk<T>::make(val));
         break;
